@@ -31,6 +31,7 @@ func init() {
 		&Rule{ID: "PG-OPMAP", Doc: "every operator token of the grammar maps to a defined, non-nil expression op: literal -> operatorMap -> Operator.ToExpr -> biscuit op", Run: rulePGOpMap, Min: 19},
 		&Rule{ID: "PG-ERR", Doc: "no error returned inside package parser is discarded", Run: rulePGErr, Min: 10},
 		&Rule{ID: "PG-LITERAL", Doc: "malformed literals, variables in sets and unbound parameters are reported on every path", Run: rulePGLiteral, Min: 3},
+		&Rule{ID: "PR-TABLE", Doc: "a token prints each of its blocks with the token-wide symbol table itself (the one the authorizer resolves with), and the block printers resolve with the table they were given", Run: rulePRTable, Min: 4},
 		&Rule{ID: "PR-OPSYM", Doc: "the printer's symbol for every operator is the one the parser reads for it", Run: rulePROpSym, Min: 20},
 		&Rule{ID: "PR-KEYWORD", Doc: "printer keywords and delimiters are the ones the grammar reads", Run: rulePRKeyword, Min: 8},
 		&Rule{ID: "PR-PARENS", Doc: "grouping parentheses are printed iff they were parsed", Run: rulePRParens, Min: 3},
@@ -640,6 +641,29 @@ func rulePROpSym(p *Prog, r *Reporter) {
 			ok := len(got) == 1 && got[0] == want
 			r.Check(ok, p.Pos(pr.Pos()), p.FuncName(pr), "print "+op, "printed as "+strconv.Quote(want)+", the form the parser reads as "+op, fmt.Sprintf("%s is printed with %q but the parser reads %q as %s: the printed block does not parse back to what is enforced", op, got, want, op))
 		}
+		// the operands are printed in the order the parser reads them: every fmt.Sprintf of the
+		// printer receives exactly its string parameters, in declaration order (left, right / value)
+		nSprintf := 0
+		for _, b := range pr.Blocks {
+			for _, in := range b.Instrs {
+				c, isC := in.(*ssa.Call)
+				if !isC || !isCallTo(&c.Call, "fmt.Sprintf") || len(c.Call.Args) != 2 {
+					continue
+				}
+				nSprintf++
+				var want []ssa.Value
+				for _, prm := range pr.Params[1:] {
+					want = append(want, prm)
+				}
+				elems, okE := variadicElems(c.Call.Args[1])
+				same := okE && len(elems) == len(want)
+				for i := 0; same && i < len(want); i++ {
+					same = unwrap(elems[i]) == want[i]
+				}
+				r.Check(same, p.instrPos(c), p.FuncName(pr), "operand order", "the format receives the printer's operands in the order (left, right) / (value)", "a format of the operator printer does not receive exactly its operands in the order the parser reads them back (left before right): the printed expression parses to a different one")
+			}
+		}
+		r.Check(nSprintf > 0, p.Pos(pr.Pos()), p.FuncName(pr), "formats applied", "the printer applies its formats with fmt.Sprintf", "no fmt.Sprintf in the operator printer: how the operands are placed into the text is outside the enumerated idioms")
 		if k.prefix == "Unary" {
 			got := formats["UnaryParens"]
 			r.Check(len(got) == 1 && got[0] == "(%s)", p.Pos(pr.Pos()), p.FuncName(pr), "print UnaryParens", `printed as "(%s)"`, fmt.Sprintf("UnaryParens printed with %q", got))
@@ -1559,5 +1583,107 @@ func rulePGLists(p *Prog, r *Reporter) {
 	}
 	if n == 0 {
 		r.Bad("?", "parser", "separated lists", "no comma separated list found in the grammar tags")
+	}
+}
+
+// variadicElems: the elements, in index order, of a variadic argument slice that the compiler built
+// as new [n]T with one constant-index store per element (t = new [n]T; t[i] = e_i; t[:]).
+func variadicElems(v ssa.Value) ([]ssa.Value, bool) {
+	sl, ok := v.(*ssa.Slice)
+	if !ok || sl.Low != nil || sl.High != nil {
+		return nil, false
+	}
+	al, ok := sl.X.(*ssa.Alloc)
+	if !ok {
+		return nil, false
+	}
+	arr, ok := deref(al.Type()).Underlying().(*types.Array)
+	if !ok {
+		return nil, false
+	}
+	out := make([]ssa.Value, arr.Len())
+	for _, ref := range *al.Referrers() {
+		ia, isIA := ref.(*ssa.IndexAddr)
+		if !isIA {
+			if ref == ssa.Instruction(sl) {
+				continue
+			}
+			return nil, false
+		}
+		idx, isK := constInt(ia.Index)
+		if !isK || idx < 0 || idx >= arr.Len() {
+			return nil, false
+		}
+		for _, rr := range *ia.Referrers() {
+			st, isSt := rr.(*ssa.Store)
+			if !isSt || st.Addr != ssa.Value(ia) || out[idx] != nil {
+				return nil, false
+			}
+			out[idx] = st.Val
+		}
+	}
+	for _, e := range out {
+		if e == nil {
+			return nil, false
+		}
+	}
+	return out, true
+}
+
+// rulePRTable: which table a token is printed with. The authorizer resolves every block against the
+// token-wide table b.symbols (built by WR-SYMTAB's rules); the text shown for a block is what is
+// enforced only if the printer resolves with that same table - a prefix, a per-block table or a copy
+// made differently prints other names (or <invalid symbol>) for the same indexes.
+func rulePRTable(p *Prog, r *Reporter) {
+	globalP = p
+	blk := p.NamedType("biscuit", "Block")
+	if blk == nil {
+		r.Dunno("?", "biscuit.Block", "type", "not found")
+		return
+	}
+	isPrinter := func(f *ssa.Function) bool {
+		return f != nil && f.Signature.Recv() != nil && isRepoNamed(f.Signature.Recv().Type(), "biscuit", "Block") && (f.Name() == "String" || f.Name() == "Code")
+	}
+	for _, fn := range p.funcsIn("biscuit") {
+		name := p.FuncName(fn)
+		if isPrinter(fn) {
+			// the debugger literal of a block printer holds the table parameter itself
+			n := 0
+			for _, b := range fn.Blocks {
+				for _, in := range b.Instrs {
+					st, ok := in.(*ssa.Store)
+					if !ok {
+						continue
+					}
+					fa, isFA := st.Addr.(*ssa.FieldAddr)
+					if !isFA || !isRepoNamed(fa.X.Type(), "datalog", "SymbolDebugger") {
+						continue
+					}
+					n++
+					okP := len(fn.Params) >= 2 && unwrap(st.Val) == ssa.Value(fn.Params[1])
+					r.Check(okP, p.instrPos(st), name, "debugger table", "the block is printed with the table it was given", "the block printer resolves symbols with a table other than the one it was given")
+				}
+			}
+			r.Check(n > 0, p.Pos(fn.Pos()), name, "debugger", "the block printer builds a SymbolDebugger", "no SymbolDebugger built in the block printer: how symbols are resolved for printing is outside the enumerated idioms")
+			continue
+		}
+		for _, b := range fn.Blocks {
+			for _, in := range b.Instrs {
+				c, ok := in.(ssa.CallInstruction)
+				if !ok || !isPrinter(c.Common().StaticCallee()) {
+					continue
+				}
+				args := c.Common().Args
+				okT := false
+				if len(args) >= 2 && fn.Signature.Recv() != nil && isRepoNamed(fn.Signature.Recv().Type(), "biscuit", "Biscuit") && len(fn.Params) > 0 {
+					if u, isU := unwrap(args[1]).(*ssa.UnOp); isU && u.Op == token.MUL {
+						if fa, isFA := u.X.(*ssa.FieldAddr); isFA && fa.X == ssa.Value(fn.Params[0]) && fieldName(fa) == "symbols" {
+							okT = true
+						}
+					}
+				}
+				r.Check(okT, p.instrPos(in), name, "table of "+c.Common().StaticCallee().Name(), "the block is printed with the token-wide table b.symbols", "a block of a token is printed with a table other than the token-wide table b.symbols that the authorizer resolves it with ("+p.D(args[len(args)-1])+"): the text shown for the block names other symbols than the ones enforced")
+			}
+		}
 	}
 }
